@@ -17,5 +17,6 @@ func TestMain(m *testing.M) {
 		"C08mcrew": C08mcrew,
 		"C12mcrew": C12mcrew,
 		"C07mcrew": C07mcrew,
+		"C14http":  C14http,
 	})
 }
